@@ -147,7 +147,7 @@ func (h *handler) OnOpen(c gnet.Conn) (out []byte, action gnet.Action) {
 	}
 	h.script(ci, "open")
 	action = h.pickAction(ci, "open")
-	if h.cfg.scenario == "onopen-big-reply" || h.cfg.scenario == "onopen-big-reply-shutdown" {
+	if h.cfg.scenario == "onopen-big-reply" || h.cfg.scenario == "onopen-big-reply-shutdown" || h.cfg.scenario == "open-arm-fails" {
 		// a reply far larger than the socket buffer and nothing written before it: conn.open's own
 		// write loop meets a short write and then EAGAIN
 		out = make([]byte, 400000)
@@ -254,15 +254,28 @@ func (h *handler) onUDP(c gnet.Conn) gnet.Action {
 		ci.sender = sp
 		h.mu.Lock()
 		var want []byte
+		got, _ := c.Peek(-1)
+		trunc := func(b []byte) []byte {
+			if len(b) > h.cfg.bufcap {
+				return b[:h.cfg.bufcap]
+			}
+			return b
+		}
+		h.rec.mu.Lock()
+		faults := len(h.rec.injected) > 0
+		h.rec.mu.Unlock()
+		if faults {
+			// a datagram whose recvfrom was made to fail is gone: resynchronise on the next one that matches
+			for sp.delivered < len(sp.dgrams) && !bytes.Equal(trunc(sp.dgrams[sp.delivered]), got) {
+				sp.delivered++
+			}
+		}
 		if sp.delivered < len(sp.dgrams) {
 			want = sp.dgrams[sp.delivered]
 		}
 		sp.delivered++
 		h.mu.Unlock()
-		if len(want) > h.cfg.bufcap {
-			want = want[:h.cfg.bufcap]
-		}
-		got, _ := c.Peek(-1)
+		want = trunc(want)
 		if !bytes.Equal(got, want) || c.InboundBuffered() != len(want) {
 			h.rec.Fail("udp-payload", "differs", fmt.Sprintf("datagram from %s: handler sees %d bytes, sender sent %d", src, len(got), len(want)))
 		}
@@ -288,6 +301,14 @@ func (h *handler) onUDP(c gnet.Conn) gnet.Action {
 	}
 	h.script(ci, "udp")
 	a := gnet.None
+	if h.cfg.pShutdown > 0 && h.rnd.Intn(1000) < h.cfg.pShutdown {
+		// a Shutdown action returned from a datagram's OnTraffic
+		h.rec.mu.Lock()
+		h.rec.shutdown = true
+		h.rec.shutdownAsked = true
+		h.rec.mu.Unlock()
+		a = gnet.Shutdown
+	}
 	h.op(ci, tr.L("hret", actName(a)))
 	return a
 }
@@ -345,6 +366,13 @@ func (h *handler) pickAction(ci *connInfo, cb string) gnet.Action {
 			return gnet.Shutdown // every OnClose of the shutdown sweep asks for shutdown again
 		}
 		if h.cfg.scenario == "onopen-big-reply-shutdown" && cb == "open" {
+			h.rec.mu.Lock()
+			h.rec.shutdown = true
+			h.rec.shutdownAsked = true
+			h.rec.mu.Unlock()
+			return gnet.Shutdown
+		}
+		if (h.cfg.scenario == "shutdown-from-onclose-writev" || h.cfg.scenario == "shutdown-from-onclose-flush") && cb == "close" {
 			h.rec.mu.Lock()
 			h.rec.shutdown = true
 			h.rec.shutdownAsked = true
@@ -819,6 +847,35 @@ func (h *handler) scenarioScript(ci *connInfo, cb string) {
 			h.doCall(ci, "writev", 2, big(30), false)
 			h.doCall(ci, "readfrom", 0, big(5), false)
 			h.doCall(ci, "flush", 0, nil, false)
+		}
+	case "shutdown-from-onclose-writev":
+		if cb == "traffic" && ci.traffic == 1 {
+			h.doCall(ci, "next", -1, nil, false)
+			h.doCall(ci, "writev", 3, big(30), false) // fails: EPIPE injected; OnClose answers Shutdown
+		}
+	case "shutdown-from-onclose-flush":
+		if cb == "traffic" && ci.traffic == 1 {
+			h.doCall(ci, "next", -1, nil, false)
+			h.doCall(ci, "write", 0, big(400000), false) // partly buffered behind EAGAIN
+		}
+	case "peek-from-ring":
+		if cb == "traffic" {
+			switch ci.traffic {
+			case 1: // leave everything in the connection's buffer
+			case 2:
+				h.doCall(ci, "peek", 10, nil, false) // entirely inside the leftover ring
+				h.doCall(ci, "peek", 100, nil, false)
+				h.doCall(ci, "peek", 120, nil, false) // spans ring and fresh read buffer
+				h.doCall(ci, "discard", 10, nil, false)
+				h.doCall(ci, "peek", 10, nil, false)
+				h.doCall(ci, "next", -1, nil, false)
+			default:
+				h.doCall(ci, "next", -1, nil, false)
+			}
+		}
+	case "open-arm-fails":
+		if cb == "traffic" {
+			h.doCall(ci, "next", -1, nil, false)
 		}
 	case "onopen-reply-order":
 		if cb == "open" {
